@@ -11,6 +11,7 @@ import (
 
 	"verif/lib/ev"
 	"verif/lib/exact"
+	"verif/lib/refgeom"
 	"verif/lib/mc"
 )
 
@@ -265,6 +266,24 @@ func main() {
 			mixed[hi] = mixed[hi][:len(mixed[hi])-1]
 			if _, ma := planar.CentroidArea(mixed); ma != a {
 				c.Failf("polygon-unclosed", "Area with hole %d spelled unclosed = %v, closed = %v | %s", hi, ma, a, desc())
+			}
+		}
+		// the measures are read-only and must not depend on how the argument is laid out in memory: the same
+		// polygons with all rings as windows of one shared buffer (capacity running into the next ring)
+		for _, lg := range []orb.Geometry{poly, open, orb.MultiPolygon{open, poly}, orb.Collection{open[0], poly}} {
+			w, verify := refgeom.Windowed(lg)
+			wa, wl := planar.Area(w), planar.Length(w)
+			wc, wca := planar.CentroidArea(w)
+			wd := planar.DistanceFrom(w, orb.Point{-3, -3})
+			if d := verify(); d != "" {
+				c.Failf("measure-writes", "a planar measure wrote outside its argument: %s | %T of %s", d, lg, desc())
+				break
+			}
+			ra, rl := planar.Area(lg), planar.Length(lg)
+			rc, rca := planar.CentroidArea(lg)
+			if wa != ra || wl != rl || wc != rc || wca != rca || wd != planar.DistanceFrom(lg, orb.Point{-3, -3}) {
+				c.Failf("measure-layout", "planar measures differ when the rings share one buffer: area %v/%v length %v/%v centroid %v/%v | %T of %s", wa, ra, wl, rl, wc, rc, lg, desc())
+				break
 			}
 		}
 		// second polygon far away; multi = sum, centroid = area weighted mean
